@@ -13,6 +13,8 @@
     `mentionsOf … k`      the (layer, path) list of the mentioning values, source first
 -/
 import YtkProofs.Analytics
+import YtkProofs.GapAnalytics
+import YtkProofs.GapAnalyticsResolve
 
 namespace Ytk.C19
 open Ytk.Analytics
@@ -253,5 +255,145 @@ theorem nonvacuous_failed :
   have : possiblyContainsPlaceholder kv.1 = true := he ▸ hv
   simp only [exMerged, List.mem_cons, List.not_mem_nil, or_false] at hkv
   rcases hkv with rfl | rfl | rfl <;> exact absurd this (by decide)
+
+/-! ## Round 7b: the hypothesis `hk` is needed; the matchers characterised -/
+
+/-- two merged entries, visited in this order: the KEY of the first is the VALUE text of the second -/
+def cexMerged : Flat := [("${x}", ⟨"string", "${y}"⟩), ("k2", ⟨"string", "${x}"⟩)]
+
+/-- The hypothesis `hk` of `failedKeys_exact_sorted` cannot be dropped (a small DEFECT of the
+    library): `placeholderResolver.Resolve` tests `slices.Contains(failedKeys, ph)` with the VALUE
+    text `ph` although `failedKeys` holds KEYS.  Witness (default matcher, filter = all, nothing
+    resolves): the entry `"${x}" ↦ "${y}"` fails and puts the key `${x}` into failedKeys; the
+    entry `k2 ↦ "${x}"` has a placeholder, is unchanged by resolution, but its value text `${x}`
+    is now "contained", so `k2` is NOT reported.  The report is `["${x}"]`, the specification
+    formula of `failedKeys_exact_sorted` gives `["${x}", "k2"]`; `hk` fails on this input. -/
+theorem failedKeys_needs_hk_counterexample :
+    let r := placeholderReport possiblyContainsPlaceholder (fun _ => true) id cexMerged []
+    let spec := sortStrings ((cexMerged.filter fun kv =>
+        (fun _ => true) kv.1 && possiblyContainsPlaceholder kv.2.text && (kv.2.text == id kv.2.text)).map (·.1))
+    r.failedKeys = ["${x}"] ∧ spec = ["${x}", "k2"] ∧ r.failedKeys ≠ spec ∧
+      ¬ (∀ kv ∈ cexMerged, ∀ v : Scalar, possiblyContainsPlaceholder v.text = true → kv.1 ≠ v.text) := by
+  intro r spec
+  have h1 : r.failedKeys = ["${x}"] := by
+    show sortStrings _ = _
+    rw [show (phLoop possiblyContainsPlaceholder (fun _ => true) id [] cexMerged ⟨[], []⟩).failedKeys = ["${x}"] by decide]
+    exact sortStrings_of_sorted (by decide)
+  have h2 : spec = ["${x}", "k2"] := by
+    show sortStrings _ = _
+    rw [show ((cexMerged.filter fun kv =>
+        (fun _ => true) kv.1 && possiblyContainsPlaceholder kv.2.text && (kv.2.text == id kv.2.text)).map (·.1)) =
+          ["${x}", "k2"] by decide]
+    exact sortStrings_of_sorted (by decide)
+  refine ⟨h1, h2, by rw [h1, h2]; decide, ?_⟩
+  intro h
+  exact h ("${x}", ⟨"string", "${y}"⟩) (by decide) ⟨"string", "${x}"⟩ (by decide) rfl
+
+/-- `hasPlaceholderFunc(k)(v)` characterised for ALL keys and values: `v` is a string that
+    contains `${k}` somewhere, or starts with `${k:` and ends with `}` (core's infix `<:+:`,
+    prefix `<+:`, suffix `<:+` on the character lists). -/
+theorem hasPlaceholder_iff (k : String) (v : Scalar) :
+    hasPlaceholder k v = true ↔
+      v.ty = "string" ∧
+        ((("${".toList ++ k.toList ++ "}".toList) <:+: v.text.toList) ∨
+          ((("${".toList ++ k.toList ++ ":".toList) <+: v.text.toList) ∧ ("}".toList <:+ v.text.toList))) := by
+  simp only [hasPlaceholder, Bool.and_eq_true, Bool.or_eq_true, beq_iff_eq, containsSub_iff, isPrefixOf_iff,
+    isSuffixOf_iff]
+
+/-- `possiblyContainsPlaceholder(s)` characterised for ALL strings: some occurrence of `${` is
+    followed (anywhere behind it) by a `}`.  (The code looks behind the FIRST `${` only; that is
+    the same, because the text behind a later occurrence is part of the text behind the first.) -/
+theorem possiblyContainsPlaceholder_iff (s : String) :
+    possiblyContainsPlaceholder s = true ↔ ∃ a b, s.toList = a ++ "${".toList ++ b ∧ '}' ∈ b :=
+  Analytics.possiblyContainsPlaceholder_iff s
+
+/-! ## Round 7b: composition with C11 — the report over the REAL resolver model
+
+  `resolveOr merged` (YtkModel/GapAnalyticsResolve.lean) is what the driver passes for the
+  `resolve` parameter: the C11 model `Resolver.resolveTop (relex d) 400` with the default
+  delimiters `${ } :` over the lexed (key, value text) table of the merged document; a run that is
+  circular or out of fuel leaves the text unchanged (the driver reports "panic" for such inputs
+  before it builds the report). -/
+
+/-- FailedKeys over the C11 resolver, key by key: `k` is reported iff the merged document has an
+    entry `(k, v)` passing the filter whose text possibly contains a placeholder and which the C11
+    model does NOT resolve to a different text — every token list the run ends with renders to the
+    text itself (this includes runs that do not end: circular, out of fuel).  `hk` as in
+    `failedKeys_exact_sorted` (needed: `failedKeys_needs_hk_resolver_counterexample`). -/
+theorem placeholderReport_agrees_resolver (merged : Flat) (doc : Doc)
+    (hk : ∀ kv ∈ merged, ∀ v : Scalar, possiblyContainsPlaceholder v.text = true → kv.1 ≠ v.text) (k : String) :
+    k ∈ (placeholderReport possiblyContainsPlaceholder filter (resolveOr merged) merged doc).failedKeys ↔
+      ∃ v, (k, v) ∈ merged ∧ filter k = true ∧ possiblyContainsPlaceholder v.text = true ∧
+        ∀ t, Resolver.resolveTop (Resolver.relex defaultDelims) 400 (mergedTable merged)
+            (Resolver.lex defaultDelims v.text.toList) = .ok t →
+          Resolver.unlex defaultDelims t = v.text.toList := by
+  rw [(failedKeys_exact_sorted filter possiblyContainsPlaceholder (resolveOr merged) merged doc hk).1,
+    mem_sortStrings, List.mem_map]
+  constructor
+  · rintro ⟨⟨k', v⟩, hm, rfl⟩
+    rw [List.mem_filter] at hm
+    simp only [Bool.and_eq_true] at hm
+    exact ⟨v, hm.1, hm.2.1.1, hm.2.1.2, (resolveOr_fix_iff merged v.text).mp hm.2.2⟩
+  · rintro ⟨v, hm, hf, hp, hr⟩
+    refine ⟨(k, v), ?_, rfl⟩
+    rw [List.mem_filter]
+    simp only [Bool.and_eq_true]
+    exact ⟨hm, ⟨hf, hp⟩, (resolveOr_fix_iff merged v.text).mpr hr⟩
+
+/-- A value that is exactly ONE placeholder `${u}` whose key `u` is plain (no `$`, `}`, `:`) and
+    is no key of the merged document IS a failed key (for every such document; by the C11 theorems
+    `resolve_one`, `resolve_noPre`, `resolvePlaceholder_none` and `unlex_lex`: the placeholder is
+    unresolvable and stays verbatim). -/
+theorem unresolvable_placeholder_is_failed (merged : Flat) (doc : Doc)
+    (hk : ∀ kv ∈ merged, ∀ v : Scalar, possiblyContainsPlaceholder v.text = true → kv.1 ≠ v.text)
+    (k : String) (v : Scalar) (u : List Char) (hm : (k, v) ∈ merged) (hf : filter k = true)
+    (hv : v.text.toList = "${".toList ++ u ++ "}".toList) (hu : PlainKey u)
+    (hnk : ∀ kv ∈ merged, kv.1.toList ≠ u) :
+    k ∈ (placeholderReport possiblyContainsPlaceholder filter (resolveOr merged) merged doc).failedKeys := by
+  rw [placeholderReport_agrees_resolver filter merged doc hk]
+  refine ⟨v, hm, hf, ?_, ?_⟩
+  · rw [possiblyContainsPlaceholder_iff]
+    exact ⟨[], u ++ "}".toList, by simpa using hv, by simp⟩
+  · intro t ht
+    rw [hv, resolveTop_single_unresolvable merged hu hnk 398] at ht
+    cases ht
+    rw [hv]
+    exact Resolver.unlex_lex' _ _
+
+/-- four merged entries: `a` resolvable through `b` (to a different text), `b` one unresolvable
+    placeholder, `c` default-bearing, `d` no string -/
+def rMerged : Flat :=
+  [("a", ⟨"string", "x-${b}"⟩), ("b", ⟨"string", "${zz}"⟩), ("c", ⟨"string", "${zz:dflt}"⟩), ("d", ⟨"int", "3"⟩)]
+
+/-- key-by-key agreement on a concrete document: `hk` holds, the C11 model resolves the four
+    values as listed, and exactly `b` is reported; `b` also meets the hypotheses of
+    `unresolvable_placeholder_is_failed` (`u = zz`). -/
+theorem nonvacuous_agrees_resolver :
+    (∀ kv ∈ rMerged, ∀ v : Scalar, possiblyContainsPlaceholder v.text = true → kv.1 ≠ v.text) ∧
+    (rMerged.map fun kv => resolveOr rMerged kv.2.text) = ["x-${zz}", "${zz}", "dflt", "3"] ∧
+    (placeholderReport possiblyContainsPlaceholder (fun _ => true) (resolveOr rMerged) rMerged []).failedKeys = ["b"] ∧
+    (PlainKey "zz".toList ∧ (∀ kv ∈ rMerged, kv.1.toList ≠ "zz".toList) ∧
+      "${zz}".toList = "${".toList ++ "zz".toList ++ "}".toList) := by
+  refine ⟨?_, by decide +kernel, ?_, by decide +kernel, by decide +kernel, by decide +kernel⟩
+  · intro kv hkv v hv he
+    have : possiblyContainsPlaceholder kv.1 = true := he ▸ hv
+    simp only [rMerged, List.mem_cons, List.not_mem_nil, or_false] at hkv
+    rcases hkv with rfl | rfl | rfl | rfl <;> exact absurd this (by decide)
+  · show sortStrings _ = _
+    rw [show (phLoop possiblyContainsPlaceholder (fun _ => true) (resolveOr rMerged) [] rMerged ⟨[], []⟩).failedKeys =
+      ["b"] by decide +kernel]
+    exact sortStrings_of_sorted (by decide)
+
+/-- `failedKeys_needs_hk_counterexample` with the REAL resolver model instead of `id`: neither
+    `${y}` nor `${x}` resolves over `cexMerged`, the report is `["${x}"]` and `k2` is missing. -/
+theorem failedKeys_needs_hk_resolver_counterexample :
+    (placeholderReport possiblyContainsPlaceholder (fun _ => true) (resolveOr cexMerged) cexMerged []).failedKeys =
+        ["${x}"] ∧
+      (cexMerged.map fun kv => resolveOr cexMerged kv.2.text) = ["${y}", "${x}"] := by
+  refine ⟨?_, by decide +kernel⟩
+  show sortStrings _ = _
+  rw [show (phLoop possiblyContainsPlaceholder (fun _ => true) (resolveOr cexMerged) [] cexMerged ⟨[], []⟩).failedKeys =
+    ["${x}"] by decide +kernel]
+  exact sortStrings_of_sorted (by decide)
 
 end Ytk.C19
